@@ -233,6 +233,11 @@ def special_families() -> list[dict]:
     for cx in ("lives", "object", "performer"):
         sets.append(mk([(cx, ["c:ID_X"], -1), ("a", ["i:1"], -1), ("Return", [], -1)]))
         sets.append(mk([(cx, ["i:3"], -1), ("a", ["i:1"], -1), (cx, ["i:4"], -1), ("b", [], -1), ("End", [], -1)]))
+    # context ops with another number of parameters than the one the inline / with forms can express (a binary may hold anything)
+    for cx in ("lives", "object", "performer"):
+        sets.append(mk([(cx, ["c:ID_X", "i:2"], -1), ("a", ["i:1"], -1), ("Return", [], -1)]))
+        sets.append(mk([(cx, [], -1), ("a", ["i:1"], -1), ("Return", [], -1)]))
+        sets.append(mk([(cx, ["i:1", "i:2", "i:3"], -1), ("flag_Set", ["c:$V", "i:4"], -1), ("End", [], -1)]))
     hs = "s:" + "hi".encode().hex()
     ls = "l:english=" + "e".encode().hex() + ";french=" + "f".encode().hex()
     for sw in ("message_SwitchTalk", "message_SwitchMonologue"):
